@@ -9,8 +9,7 @@
 (*   k      : index of the class within the record (echoed in the reject line)      *)
 (*   fn     : "sphdist" | "gcirc"      (informational; tolerances are applied by    *)
 (*            the adapter's projection, DESIGN 4.1/4.2)                             *)
-(*   swap   : TRUE when the call was f(q, p)                                        *)
-(*   k1, k2 : multiples of 360 degrees added to the first / second longitude        *)
+(*   samewrap : the same multiple of 360 degrees was added to both longitudes       *)
 (*   err    : "none" or the exception class                                         *)
 (*   fin, rng, zero : result finite / within [0,180] degrees / exactly 0.0          *)
 (*   on     : the result lies within the property's tolerance of a lattice value    *)
@@ -18,6 +17,10 @@
 (*            are within tolerance of the returned number (eps as instantiated)     *)
 (*   dn, dd (kind rs): the rational cosine dn/dd the returned angle is within       *)
 (*            tolerance of (the adapter tests the exported expectation)             *)
+(* A class collects calls f(p,q) and f(q,p) with any multiples of 360 degrees added *)
+(* to the longitudes: by GThmSymmetric and GThmWrap - checked by TLC in SphereMC on *)
+(* exactly the exported pairs - the exact separation is the same for all of them,   *)
+(* so the expected value is computed once from the case.                            *)
 (* The specification decides: it recomputes SepGC / CosSep from the case and        *)
 (* accepts only the exact value.                                                    *)
 EXTENDS Sphere, Json, IOUtils
@@ -34,19 +37,15 @@ PickTrace == blk > 0 /\ tid = 0
              /\ \E t \in ((blk - 1) * BlockSize + 1)..VMin2(blk * BlockSize, NT) : tid' = t /\ blk' = blk
 Next == PickBlock \/ PickTrace
 
-\* the arguments as the call received them
-GFirst(c, o)  == IF o.swap THEN GWrap(c.q, o.k1) ELSE GWrap(c.p, o.k1)
-GSecond(c, o) == IF o.swap THEN GWrap(c.p, o.k2) ELSE GWrap(c.q, o.k2)
-
-Identical(c, o) == IF c.kind = "gc" THEN GIdentical(GFirst(c, o), GSecond(c, o))
-                   ELSE c.u = c.v /\ o.k1 = o.k2
+\* "identical inputs": the same coordinates were passed for both points
+Identical(c, o) == o.samewrap /\ (IF c.kind = "gc" THEN GIdentical(c.p, c.q) ELSE c.u = c.v)
 
 Accurate(c, o) ==
     /\ o.on
     /\ IF c.kind = "gc"
-       THEN LET s == SepGC(GFirst(c, o), GSecond(c, o))
+       THEN LET s == SepGC(c.p, c.q)
             IN s[1] = o.a /\ o.blo <= s[2] /\ s[2] <= o.bhi
-       ELSE o.dd > 0 /\ REq(<<o.dn, o.dd>>, IF o.swap THEN CosSep(c.v, c.u) ELSE CosSep(c.u, c.v))
+       ELSE o.dd > 0 /\ REq(<<o.dn, o.dd>>, CosSep(c.u, c.v))
 
 FailingObs(c, o) ==
     IF o.err # "none" THEN {"no_error"}
